@@ -244,7 +244,16 @@ func c20CheckRename(p *Prog, r *Report, rule string, fc *FuncCtx, ren CallSite) 
 
 func samePathOrObj(fc *FuncCtx, a, b ast.Expr) bool {
 	info := fc.Info()
+	if oa, ob := objOf(info, a), objOf(info, b); oa != nil && oa == ob {
+		return true
+	}
+	if samePath(info, a, b) {
+		return true
+	}
 	a, b = fc.Resolve(a), fc.Resolve(b)
+	if a == b {
+		return true
+	}
 	if oa, ob := objOf(info, a), objOf(info, b); oa != nil && oa == ob {
 		return true
 	}
